@@ -157,6 +157,68 @@ func c05Sequential(t *testing.T, kind string, seg vk.SegFunc, lens []int, bufSiz
 	return
 }
 
+// c05AfterFailedWrite: a Write whose transport write reports an error (the bytes did leave) is
+// followed by further Writes on the same connection; the reader must still get exactly the written
+// messages, each whole, in order, and nothing else.
+func c05AfterFailedWrite(t *testing.T, kind string, lens []int, failAt int) (k, d string) {
+	defer runtime.GOMAXPROCS(runtime.GOMAXPROCS(1)) // buffer pools are per-P: reuse by the next Write is then certain
+	p, leftover := vk.InBubble(t, func() {
+		n := vk.NewNet()
+		w, rd, pipe, err := c05Pair(n, kind, vk.SegAll(), 0)
+		if err != nil {
+			k, d = "handshake", err.Error()
+			return
+		}
+		var msgs [][]byte
+		for i, L := range lens {
+			msgs = append(msgs, c05Msg(3, uint32(i), L))
+		}
+		for i, m := range msgs {
+			if i == failAt {
+				pipe.FailNextWrite(0)
+			}
+			_, err := w.Write(m)
+			if i != failAt && err != nil {
+				k, d = "write", fmt.Sprintf("Write of message %d (after the failed write of message %d) returned %v", i, failAt, err)
+				return
+			}
+		}
+		got := 0
+		done := make(chan struct{})
+		go func() {
+			defer close(done)
+			buf := make([]byte, 20000)
+			for got < len(msgs) {
+				nn, err := rd.Read(buf)
+				if err != nil {
+					k, d = "read-error", fmt.Sprintf("Read of message %d failed: %v (message %d was the one whose transport write reported an error after its bytes had left)", got, err, failAt)
+					return
+				}
+				if !bytes.Equal(buf[:nn], msgs[got]) {
+					k, d = "wrong-message", fmt.Sprintf("Read %d returned %d bytes that are not message %d (%d bytes) whole and unaltered; message %d was the one whose transport write reported an error after its bytes had left", got, nn, got, len(msgs[got]), failAt)
+					return
+				}
+				got++
+			}
+		}()
+		vk.Wait()
+		select {
+		case <-done:
+		default:
+			if k == "" {
+				k, d = "reader-parked", fmt.Sprintf("the reader got only %d of %d messages and is parked (message %d's transport write had reported an error)", got, len(msgs), failAt)
+			}
+		}
+		w.Close()
+		rd.Close()
+		vk.Wait()
+	})
+	if p != nil && !leftover && k == "" {
+		k, d = "panic", fmt.Sprint(p)
+	}
+	return
+}
+
 // c05Oversize: a record larger than the reader's buffer must be reported as an error.
 func c05Oversize(t *testing.T, kind string, msgLen, bufSize int) (k, d string) {
 	p, leftover := vk.InBubble(t, func() {
@@ -377,6 +439,31 @@ func TestVerif_C05(t *testing.T) {
 				}
 			}
 			r.Count("evaluations", int64(n))
+			r.Count("distinct_enumerated", int64(n))
+			if bad != "" {
+				r.Violation(id, "C05:"+badk, bad, nil)
+			} else {
+				r.Pass(id)
+			}
+		}
+		// (3b) writes after a write whose transport reported an error (TLS record layer only: gorilla
+		// makes a write error sticky, so nothing follows there)
+		id = "after-failed-write/" + kind
+		if kind == "tls" && r.Mine(id) {
+			r.Case(id, nil)
+			var bad, badk string
+			n := 0
+			for fa := 0; fa < 4; fa++ {
+				for _, lens := range [][]int{{10, 20, 30, 40, 50}, {1000, 1, 16000, 7, 300}, {1, 1, 1, 1, 1}, {16000, 16000, 16000, 16000, 16000}} {
+					k, d := c05AfterFailedWrite(t, kind, lens, fa)
+					n++
+					if k != "" && bad == "" {
+						badk, bad = k, d
+					}
+				}
+			}
+			r.Count("evaluations", int64(n))
+			r.Count("writes_after_failed_write", int64(n))
 			r.Count("distinct_enumerated", int64(n))
 			if bad != "" {
 				r.Violation(id, "C05:"+badk, bad, nil)
